@@ -86,8 +86,8 @@ inductive R where
   deriving Repr, BEq, Inhabited
 
 def labelToASCII (l : Bytes) : R :=
-  if l.all (· < 128) then
-    if [120, 110, 45, 45].isPrefixOf l then .noclaim else .ok l
+  if [120, 110, 45, 45].isPrefixOf l then .noclaim
+  else if l.all (· < 128) then .ok l
   else match utf8Dec l with
     | none => .noclaim
     | some cps =>
